@@ -28,12 +28,13 @@ static void log_release(char kind, void *p) {
     for (int i = nobj - 1; i >= 0; i--) if (objs[i].p == p && objs[i].live) { id = i; objs[i].live = 0; if (objs[i].kind != kind) id = -2 - i; break; }
     if (nev < MAXEV) { evs[nev].type = 'r'; evs[nev].kind = kind; evs[nev].id = id; evs[nev].ok = 1; nev++; }
 }
-void *__wrap_malloc(size_t n) { if (!in_call) return __real_malloc(n); if (should_fail()) { log_alloc('m', NULL, 0); errno = ENOMEM; return NULL; } void *p = __real_malloc(n); log_alloc('m', p, p != NULL); return p; }
-void *__wrap_calloc(size_t a, size_t b) { if (!in_call) return __real_calloc(a, b); if (should_fail()) { log_alloc('m', NULL, 0); errno = ENOMEM; return NULL; } void *p = __real_calloc(a, b); log_alloc('m', p, p != NULL); return p; }
-void *__wrap_realloc(void *q, size_t n) { if (!in_call) return __real_realloc(q, n); if (should_fail()) { log_alloc('m', NULL, 0); errno = ENOMEM; return NULL; } void *p = __real_realloc(q, n); if (q) log_release('m', q); log_alloc('m', p, p != NULL); return p; }
+static int fail_errno = ENOMEM;      /* errno reported with an injected failure: VERIF_FAIL_ERRNO (a failing request may report EINVAL, EAGAIN, EPERM ... as well) */
+void *__wrap_malloc(size_t n) { if (!in_call) return __real_malloc(n); if (should_fail()) { log_alloc('m', NULL, 0); errno = fail_errno; return NULL; } void *p = __real_malloc(n); log_alloc('m', p, p != NULL); return p; }
+void *__wrap_calloc(size_t a, size_t b) { if (!in_call) return __real_calloc(a, b); if (should_fail()) { log_alloc('m', NULL, 0); errno = fail_errno; return NULL; } void *p = __real_calloc(a, b); log_alloc('m', p, p != NULL); return p; }
+void *__wrap_realloc(void *q, size_t n) { if (!in_call) return __real_realloc(q, n); if (should_fail()) { log_alloc('m', NULL, 0); errno = fail_errno; return NULL; } void *p = __real_realloc(q, n); if (q) log_release('m', q); log_alloc('m', p, p != NULL); return p; }
 void __wrap_free(void *p) { if (in_call && p) log_release('m', p); __real_free(p); }
 int __wrap_posix_memalign(void **out, size_t al, size_t n) { if (!in_call) return __real_posix_memalign(out, al, n); if (should_fail()) { log_alloc('m', NULL, 0); return ENOMEM; } int r = __real_posix_memalign(out, al, n); log_alloc('m', r == 0 ? *out : NULL, r == 0); return r; }
-void *__wrap_mmap(void *a, size_t n, int pr, int fl, int fd, off_t off) { if (!in_call) return __real_mmap(a, n, pr, fl, fd, off); if (should_fail()) { log_alloc('p', NULL, 0); errno = ENOMEM; return MAP_FAILED; } void *p = __real_mmap(a, n, pr, fl, fd, off); log_alloc('p', p, p != MAP_FAILED); return p; }
+void *__wrap_mmap(void *a, size_t n, int pr, int fl, int fd, off_t off) { if (!in_call) return __real_mmap(a, n, pr, fl, fd, off); if (should_fail()) { log_alloc('p', NULL, 0); errno = fail_errno; return MAP_FAILED; } void *p = __real_mmap(a, n, pr, fl, fd, off); log_alloc('p', p, p != MAP_FAILED); return p; }
 int __wrap_munmap(void *p, size_t n) { if (in_call) log_release('p', p); return __real_munmap(p, n); }
 
 /* ------------------------------------------------------------------ the API calls under test */
@@ -125,6 +126,7 @@ static int run_child(int a, int at, int from, int big, FILE *out) {
 int main(int argc, char **argv) {
     if (argc < 2) return 3;
     int big = argc > 2 && !strcmp(argv[2], "big");
+    if (getenv("VERIF_FAIL_ERRNO")) fail_errno = atoi(getenv("VERIF_FAIL_ERRNO"));
     FILE *out = fopen(argv[1], "w"); if (!out) return 3;
     if (sodium_init() < 0) return 3;
     memset(SALT, 0x5a, sizeof SALT);
